@@ -104,7 +104,9 @@ AppOut(var, c) ==
   IN IF c.via = "force_noenv" THEN [exc |-> "TypeError", cls |-> "", same |-> FALSE, data |-> <<>>, st |-> 0, hx |-> FALSE,
                                     y0 |-> 0, stops0 |-> 0, closes0 |-> 0, closes1 |-> 0]
      ELSE [exc |-> "", cls |-> "Sub", same |-> c.via = "force_resp",
-           data |-> IF var = "app_drops_written" THEN BytesOf(c.items) ELSE AppData(c), st |-> 201, hx |-> TRUE,
+           \* "app_buffered_drops_written" = run_wsgi_app before fixes/X04-run-wsgi-app-buffered-drops-written-data.diff
+           data |-> IF var = "app_drops_written" \/ (var = "app_buffered_drops_written" /\ c.buffered /\ c.via = "from_app")
+                    THEN BytesOf(c.items) ELSE AppData(c), st |-> 201, hx |-> TRUE,
            y0 |-> IF c.via = "force_resp" THEN 0 ELSE IF buf THEN n ELSE Min2(1, n),
            stops0 |-> IF c.via = "force_resp" THEN 0 ELSE IF buf \/ n = 0 THEN 1 ELSE 0,
            closes0 |-> IF buf THEN h ELSE 0,
